@@ -55,11 +55,16 @@ STD_ASSUMPTIONS = {
            'string starts with the pattern), u8::is_ascii_lowercase / is_ascii_uppercase / is_ascii_digit (the three byte ranges), <[T]>::split_last, Iterator::position and Iterator::last of '
            'core::slice::Iter (in terms of the elements the iterator will yield; position through the contract of the closure value passed in). Cross-checked, within bounds, by the Kani harnesses '
            'that run the same callers on the real std code.',
+    'A12': 'ASSUMED (rule R20): `E.map(f).collect::<Vec<_>>()`, `E.enumerate().map(f).collect()` and `E.filter(p).collect()` compute what the loop '
+           '`let mut it = E; loop { match it.next() { Some(x) => push .., None => break } }` computes (Iterator::map / Enumerate::next / Filter::next followed by '
+           'Vec: FromIterator: next() until None, one call of the closure per item, results kept in order) - the definition of these std adaptors; capacity '
+           'hints are not modelled. Four functions are verified in that loop form: Registry::register_types, Registry::map_into_portable, '
+           'PortableRegistryBuilder::finish, TypeDefTuple::new; Kani (map_into_portable_in_order) and the native leg run the original pipelines on the real std code.',
     'PARTIAL': 'termination of Registry::register_type is NOT proved (depends on finiteness of the Rust type graph); the registry recursion carries '
                'exec_allows_no_decreases_clause, so the registry units are partial-correctness proofs; absence of stack overflow is not proved anywhere',
     'MODULAR': 'the mutual recursion register_type <-> into_portable is cut modularly into two Verus units (registry / registry_impls) sharing one contract text, '
                'because Verus rejects the trait-dictionary cycle; four trait-impl methods (Path, Field, Variant, Type) are verified as identical-text inherent twins (rule R12)',
-    'TOOLS': 'Verus 0.2026.09.13 + Z3; rustc (macro expansion per feature set, -Zunpretty=expanded); the extractor (syntactic; global rules R1-R4, R6, R7, R9-R11, R14-R18 and the template-directed R19 plus the '
+    'TOOLS': 'Verus 0.2026.09.13 + Z3; rustc (macro expansion per feature set, -Zunpretty=expanded); the extractor (syntactic; global rules R1-R4, R6, R7, R9-R11, R14-R18 and the template-directed R19, R20 plus the '
              'template-directed rewrites RET, R8, R12, R13, HDR - every application is logged in coverage.extraction.rewrites)',
 }
 
@@ -72,9 +77,9 @@ PROPS = {
     'C01': dict(
         title='Every produced registry is dense and closed under references',
         level='proof',
-        technique='Verus data-structure invariant + trait-level contract on every into_portable impl; retain closure/cardinality contract; Kani bounded stand-ins for 3 closure functions',
+        technique='Verus data-structure invariant + trait-level contract on every into_portable impl; retain closure/cardinality contract; register_types / map_into_portable / finish verified as the loops that define their iterator pipelines (rule R20)',
         level_text='Registry::inv (every stored definition is filed under an in-range id and all ids it mentions are in range) and the pay-back clause (a call leaves a definition for exactly the ids it interned) are proved for register_type / intern_type_id and inherited by all 14 IntoPortable impls with MetaType::type_info() unconstrained, so density and closure hold after every top-level call for every type with type info (lemma_dense_step, lemma_dense_closed); resolve returns exactly the entry at the position; the builder is proved a duplicate-free list; retain on a well-formed registry is proved to return a well-formed registry (reg_wf: entry i carries id i and every referenced id resolves; see C10).',
-        level_note='Assumed contracts: BTreeMap entry API, lawful Ord/Clone of key types, mem::replace. Left external in Verus with assumed contracts (bounded stand-ins, not counted): Registry::register_types, map_into_portable (closures capturing &mut inside map().collect()) and PortableRegistryBuilder::finish (enumerate). TypeParameter::into_portable is verified after rule R19 (Option::map on a closure literal replaced by its definition, a match). From<Registry> for PortableRegistry IS verified (as an identical-text inherent twin, tuple-pattern closure rewritten to a let, rule R8) under the assumption that BTreeMap iterates in ascending key order. Registries obtained by decoding the output of the library: by theorem_roundtrip (unit codec, C07) the decoded value EQUALS the encoded registry, so it inherits density and closure - that theorem is part of the obligations of this property only through C07, not re-proved here. Partial correctness for registration. All id guarantees up to 2^32 entries.',
+        level_note='Assumed contracts: BTreeMap entry API, lawful Ord/Clone of key types, mem::replace. Registry::register_types, Registry::map_into_portable (closures capturing &mut inside map().collect()) and PortableRegistryBuilder::finish (enumerate) are no longer external: they are verified after rule R20 (an iterator pipeline ending in collect into a Vec is replaced by the loop std defines it by: next() until None, results pushed in order), with loop invariants; the Kani harness map_into_portable_in_order and the native histories run them on the real std iterators as a cross-check of that rule. TypeParameter::into_portable is verified after rule R19 (Option::map on a closure literal replaced by its definition, a match). From<Registry> for PortableRegistry IS verified (as an identical-text inherent twin, tuple-pattern closure rewritten to a let, rule R8) under the assumption that BTreeMap iterates in ascending key order. Registries obtained by decoding the output of the library: by theorem_roundtrip (unit codec, C07) the decoded value EQUALS the encoded registry, so it inherits density and closure - that theorem is part of the obligations of this property only through C07, not re-proved here. Partial correctness for registration. All id guarantees up to 2^32 entries.',
         verus=[('interner', INTERNER_ITEMS), ('registry', REGISTRY_ITEMS + ['tmpl::lemma_dense_*', 'tmpl::lemma_img_closed', 'tmpl::lemma_*_mono']),
                ('registry_impls', IMPL_ITEMS),
                ('portable', ['PortableRegistry::resolve', 'PortableRegistryBuilder::*', 'PortableType::new', 'Registry::types',
@@ -83,17 +88,17 @@ PROPS = {
                ('retain', ['PortableRegistry::retain', 'tmpl::lemma_*'])],
         kani_quick=['builder_new_is_empty', 'map_into_portable_in_order'],
         kani_thorough=['builder_new_is_empty', 'map_into_portable_in_order'],
-        assumptions=['A1', 'A2', 'A3', 'A4', 'A5', 'A6', 'A7', 'A9', 'PARTIAL', 'MODULAR', 'VSTD', 'TOOLS'],
+        assumptions=['A1', 'A2', 'A3', 'A4', 'A5', 'A6', 'A7', 'A9', 'PARTIAL', 'MODULAR', 'A12', 'VSTD', 'TOOLS'],
     ),
     'C02': dict(
         title='Portable form is a faithful image of the compile-time definition',
         level='proof',
         technique='Verus: image_of postcondition (structural relation over all 8 definition kinds) on every into_portable impl and on register_type; invariant over the registry',
         level_text='The trait contract ensures image_of(self, out, final table): path segments, parameter names, field names/order/type names, variant names/indices, docs and array lengths equal, sequences related element-wise in order, each reference an in-range id whose table entry is the identity of the referenced MetaType. register_type ensures the returned id resolves to the type\'s identity, and Registry::inv states that every stored definition is the image of info_of(identity) w.r.t. the current table (stable under growth: proved monotonicity lemmas). Holds for recursive and mutually recursive types because type_info() is an unconstrained external function.',
-        level_note='Termination of registration is NOT proved (partial correctness). Coherence assumption A9 (type_info deterministic per identity). String conversion &str -> String assumed to preserve characters. register_types / map_into_portable are assumed (Kani-bounded order check for map_into_portable); TypeParameter::into_portable is verified (rule R19).',
-        verus=[('registry', REGISTRY_ITEMS + ['tmpl::lemma_*']), ('registry_impls', IMPL_ITEMS + ['tmpl::lemma_*'])],
+        level_note='Termination of registration is NOT proved (partial correctness). Coherence assumption A9 (type_info deterministic per identity). String conversion &str -> String assumed to preserve characters. register_types / map_into_portable are verified after rule R20 (an iterator pipeline ending in collect into a Vec is replaced by the loop std defines it by: next() until None, results pushed in order) - Kani-bounded order check for map_into_portable on the real iterators as a cross-check; TypeParameter::into_portable is verified (rule R19). For the types of src/impls.rs the coherence assumption is discharged by unit alias (every impl that shares an identity forwards its definition), which is part of this check.',
+        verus=[('registry', REGISTRY_ITEMS + ['tmpl::lemma_*']), ('registry_impls', IMPL_ITEMS + ['tmpl::lemma_*']), ('alias', ['TypeInfo for *', 'tmpl::identity::*'])],
         kani_quick=['map_into_portable_in_order'], kani_thorough=['map_into_portable_in_order'],
-        assumptions=['A4', 'A5', 'A6', 'A7', 'A9', 'PARTIAL', 'MODULAR', 'VSTD', 'TOOLS'],
+        assumptions=['A4', 'A5', 'A6', 'A7', 'A9', 'PARTIAL', 'MODULAR', 'A12', 'VSTD', 'TOOLS'],
     ),
     'C05': dict(
         title='One entry per distinct type: aliases share an id, distinct types never merge',
@@ -126,17 +131,17 @@ PROPS = {
                # order independence presupposes that a declared identity determines the definition (coherence of the library's own impls)
                ('alias', ['TypeInfo for *', 'tmpl::identity::*'])],
         kani_quick=[], kani_thorough=[],
-        assumptions=['A1', 'A4', 'A5', 'A7', 'PARTIAL', 'MODULAR', 'VSTD', 'TOOLS'],
+        assumptions=['A1', 'A4', 'A5', 'A7', 'PARTIAL', 'MODULAR', 'A12', 'VSTD', 'TOOLS'],
     ),
     'C12': dict(
         title='Runtime builder and interner behave as an append-only duplicate-free table',
         level='proof',
         technique='Verus contracts (abstract view = list, representation invariant) on the extracted Interner and PortableRegistryBuilder functions; history lemma',
         level_text='Every Interner and builder operation is proved, for all element types, values and prior states satisfying the representation invariant, to behave exactly like the duplicate-free list that is its abstract view (new value -> appended and the next free index, equal value -> its first index and nothing changes, get/resolve -> stored value or None); each operation requires only the invariant and re-establishes it, so the statement holds for every finite history (lemma_builder_history over operation scripts).',
-        level_note='PortableRegistryBuilder::new IS verified (derived Default impl taken from the rustc expansion, Interner::default, Interner::new). finish (enumerate + tuple-pattern closure) is left external with an assumed contract; stand-in: the native builder scripts only (a Kani harness over <= 2 registrations did not finish in 40 minutes - BTreeMap keyed by Type<PortableForm> under CBMC - and was removed); Kani builder_new_is_empty cross-checks new on the real code. Assumed: BTreeMap entry API contract, lawful Ord/Clone of Type<PortableForm>. Ids guaranteed up to 2^32 entries.',
+        level_note='PortableRegistryBuilder::new IS verified (derived Default impl taken from the rustc expansion, Interner::default, Interner::new). finish (`elements().iter().enumerate().map(|(i, ty)| ..).collect()`) IS verified after rule R20 (an iterator pipeline ending in collect into a Vec is replaced by the loop std defines it by: next() until None, results pushed in order): entry i of the result carries id i and the i-th registered value; the native builder scripts run it on the real iterators (a Kani harness over <= 2 registrations did not finish in 40 minutes - BTreeMap keyed by Type<PortableForm> under CBMC - and was removed); Kani builder_new_is_empty cross-checks new on the real code. Assumed: BTreeMap entry API contract, lawful Ord/Clone of Type<PortableForm>. Ids guaranteed up to 2^32 entries.',
         verus=[('interner', INTERNER_ITEMS), ('portable', ['PortableRegistryBuilder::*', '::core::default::Default for PortableRegistryBuilder::default', 'tmpl::lemma_builder_history'])],
         kani_quick=['builder_new_is_empty'], kani_thorough=['builder_new_is_empty'],
-        assumptions=['A1', 'A5', 'A7', 'VSTD', 'TOOLS'],
+        assumptions=['A1', 'A5', 'A7', 'A12', 'VSTD', 'TOOLS'],
     ),
     'C14': dict(
         title='Decoding untrusted registry bytes never panics and is canonical (SCALE decode and resolve clauses proved; JSON clause bounded only; memory not covered)',
@@ -164,10 +169,10 @@ PROPS = {
         level='proof',
         technique='Verus full functional postconditions on every builder function of src/build.rs and the src/ty constructors, verified twice (docs feature on / off)',
         level_text='Every builder step is proved to produce exactly the supplied component and leave all others unchanged (FieldBuilder, VariantBuilder, Variants, FieldsBuilder, TypeBuilder, Type::new, Field::new, Variant::new, TypeDef*::new); MetaForm push_field lists a field unless its type is PhantomData, PortableForm push_field always; docs()/docs_portable() keep docs exactly with the docs feature and are the identity without it, docs_always() always keeps them. Closure-taking builders are specified through the closure\'s own requires/ensures.',
-        level_note='TypeDefTuple::new (iterator filter; the prophetic Filter spec of vstd cannot be connected to Seq::filter without a hint after the tail expression) is external with assumed contract; bounded stand-in: native enumeration of all member triples (CBMC ran out of memory on a Kani harness for it). MetaType::new / is_phantom contracts are proved in unit metatype. Initial emptiness comes from the Default impls (verified). The derive\'s generated code is not in the repository and not covered. Assumed: to_vec contract.',
+        level_note='TypeDefTuple::new (`into_iter().filter(|ty| !ty.is_phantom()).collect()`; the prophetic Filter spec of vstd cannot be connected to Seq::filter) IS verified after rule R20 (an iterator pipeline ending in collect into a Vec is replaced by the loop std defines it by: next() until None, results pushed in order): the result is exactly the non-phantom members in order; the native enumeration of all member triples runs it on the real iterators (CBMC ran out of memory on a Kani harness for it). MetaType::new / is_phantom contracts are proved in unit metatype. Initial emptiness comes from the Default impls (verified). The derive\'s generated code is not in the repository and not covered. Assumed: to_vec contract.',
         verus=[('build', ['*'])],
         kani_quick=[], kani_thorough=[],
-        assumptions=['A4', 'A8', 'VSTD', 'TOOLS'],
+        assumptions=['A4', 'A8', 'A12', 'VSTD', 'TOOLS'],
     ),
     'C18': dict(
         title='Paths are non-empty sequences of valid Rust identifiers',
@@ -229,7 +234,7 @@ PROPS = {
                           ([('-nostd-docs', ('docs',)), ('-all-docs', ('std', 'serde', 'decode', 'bit-vec', 'schema', 'docs'))] if u == 'build' else [])
                        for u in ('build', 'interner', 'registry', 'registry_impls', 'portable', 'codec')},
         kani_quick=[], kani_thorough=[],
-        assumptions=['A1', 'A2', 'A4', 'A5', 'A6', 'A7', 'A9', 'CODEC', 'PARTIAL', 'MODULAR', 'VSTD', 'TOOLS'],
+        assumptions=['A1', 'A2', 'A4', 'A5', 'A6', 'A7', 'A9', 'CODEC', 'PARTIAL', 'MODULAR', 'A12', 'VSTD', 'TOOLS'],
     ),
     'C08': dict(
         title='JSON form has the documented shape and round-trips',
